@@ -155,8 +155,8 @@ class SvsInst:
                 self.timer_rst_event.set()
             else:
                 self.aggregate(rsv_dict)
-        else:
-            # Reset sync timer
+        elif self.next_sync_timing > time.time():
+            # Reset sync timer - unless an emission is due right now (a publication that is not yet announced)
             self.next_sync_timing = time.time() + self.sample_sync_timer()
             self.timer_rst_event.set()
 
